@@ -7,6 +7,7 @@ import HtpModel.Pinned.Eq
 import HtpModel.Lemmas.History
 import HtpModel.Lemmas.CFunsBuffer
 import HtpModel.Lemmas.TxCountOut
+import HtpModel.Lemmas.RepInvOut
 
 namespace Htp.C10
 open Htp.Conn Htp.Gen
@@ -236,6 +237,15 @@ theorem C10_history_maxtx (cfg : Cfg) (hm : 0 < cfg.maxTx) (calls pre : List Cal
 example :
     let four := (b!"GET / HTTP/1.1\r\nHost: h\r\n\r\nGET / HTTP/1.1\r\nHost: h\r\n\r\nGET / HTTP/1.1\r\nHost: h\r\n\r\nGET / HTTP/1.1\r\nHost: h\r\n\r\n")
     (runCalls { maxTx := 2 } {} [.open, .req four]).txs.length = 3 := by decide
+
+/-- **C10 (the repetition budget over whole call histories)**: after ANY history of calls on a freshly created connection parser, for every
+    transaction it holds, the two header-repetition counters are at most HTP_MAX_HEADERS_REPETITIONS - the only writers are the two header
+    insertion functions, through `addHeader`, which `C10_repetitions_capped` bounds; every other function of both directions leaves the
+    counters alone (`Lemmas/RepInv.lean`, `RepInvOut.lean`). So the number of merges a repeated field can accumulate in one transaction is
+    bounded for every stream, chunking and interleaving. -/
+theorem C10_history_repetitions_capped (cfg : Cfg) (calls : List Call) (t : Tx) (ht : some t ∈ (runCalls cfg {} calls).txs) :
+    t.reqHeaderRepetitions ≤ MAX_HEADERS_REPETITIONS ∧ t.resHeaderRepetitions ≤ MAX_HEADERS_REPETITIONS :=
+  history_repetitions_capped_fresh cfg calls t ht
 
 /-- **C10 (the constants are the reviewed ones)**: every constant the translator reads from the current source - among them the limits (field limits, repetition and folding caps, list sizes) -
     equals its reviewed snapshot (lean/HtpModel/Pinned); the model follows a regenerated constant, so this is what notices a changed one -/
